@@ -1,19 +1,33 @@
-(* C02 — static file serving: executable model of staticfiles.FileServer.serveFile over a concrete
-   file-system snapshot (what http.Dir(root) shows), plus the observable contract of browse
-   listings / archives / redirects. *)
-Require Import V.Lib V.GoPath V.Gen_C02.
+(* C02 — served file content stays inside the root and never includes hidden files.
+
+   Executable model of the file-serving handlers over an explicit finite file-system tree
+   (what http.Dir(root) shows: cleaned rooted path, directory bit, identity = what os.SameFile
+   compares; no symlinks — the jail is lexical, exactly as http.Dir's is):
+
+     staticfiles.FileServer.serveFile   -> serve_file
+     http.Redirect / URL.String         -> http_redirect / escape_path
+     internalsrv.Internal.ServeHTTP     -> internal_blocks (it also feeds the hide list)
+     browse.Browse.ServeHTTP            -> browse (scope, redirect, listing, archive walk)
+     httpserver.hideCasketfile          -> hide_casketfile
+
+   Definitions only; proofs are in C02_Proofs.v, the property theorems in C02_Props.v. *)
+Require Import V.Lib V.GoPath V.Gen_C02 V.Gen_C02b.
 Open Scope N_scope.
 
-(* a node of the jailed file system: cleaned rooted path, directory?, identity (inode) *)
+(* ---- the jailed file system ---- *)
 Record node := { n_path : bytes; n_dir : bool; n_id : N }.
 Definition fsys := list node.
 
-(* http.Dir(root).Open(name): path.Clean("/" ++ name) inside the root *)
+(* http.Dir(root).Open(name) opens root ++ path.Clean("/" ++ name) *)
 Definition jail (name : bytes) : bytes := clean (SLASH :: name).
+Definition has_nul (name : bytes) : bool := existsb (N.eqb 0) name.
+Definition fs_at (fs : fsys) (p : bytes) : option node := find (fun n => beq (n_path n) p) fs.
+(* a NUL byte left in the cleaned path is refused ("invalid or unsafe file path") *)
+Definition bad_name (name : bytes) : bool := has_nul (jail name).
 Definition fs_open (fs : fsys) (name : bytes) : option node :=
-  find (fun n => beq (n_path n) (jail name)) fs.
+  if bad_name name then None else fs_at fs (jail name).
 
-(* path.Join(a, b) for two elements: Clean(a ++ "/" ++ b) (empty elements ignored) *)
+(* path.Join(a, b): non-empty elements joined by "/" and cleaned *)
 Definition path_join2 (a b : bytes) : bytes :=
   match a, b with
   | [], [] => []
@@ -22,33 +36,78 @@ Definition path_join2 (a b : bytes) : bytes :=
   | _, _ => clean (a ++ SLASH :: b)
   end.
 
-(* the "//"-prefix trimming loop *)
+(* for strings.HasPrefix(p, "//") { p = strings.TrimPrefix(p, "/") } *)
 Fixpoint trim_dslash (p : bytes) : bytes :=
   match p with
   | c :: ((d :: _) as r) => if (c =? SLASH) && (d =? SLASH) then trim_dslash r else p
   | _ => p
   end.
 
-Definition last_is_slash (p : bytes) : bool :=
-  match rev p with c :: _ => c =? SLASH | [] => false end.
 Definition drop_last (p : bytes) : bytes := rev (tl (rev p)).
 
+(* ---- URL.String() of a URL without scheme/host: escape(Path, encodePath) ---- *)
+Definition is_alnum (c : N) : bool :=
+  ((48 <=? c) && (c <=? 57)) || ((65 <=? c) && (c <=? 90)) || ((97 <=? c) && (c <=? 122)).
+Definition path_safe (c : N) : bool :=
+  is_alnum c || existsb (N.eqb c) [45; 95; 46; 126 (* -_.~ *); 36; 38; 43; 44; 47; 58; 59; 61; 64 (* $&+,/:;=@ *)].
+Definition hexdig (n : N) : N := if n <? 10 then 48 + n else 55 + n.
+Fixpoint escape_path (s : bytes) : bytes :=
+  match s with
+  | [] => []
+  | c :: r => if path_safe c then c :: escape_path r
+              else 37 :: hexdig ((c / 16) mod 16) :: hexdig (c mod 16) :: escape_path r
+  end.
+
+(* ---- http.Redirect(w, r, url, code): the Location header it sets (query part left out) ----
+   url.Parse finds an authority iff the string starts with "//" followed by a byte other than
+   '/' (or fails on it): then the string is used verbatim.  Otherwise it is made absolute
+   against the directory of the request path and path.Clean-ed, keeping a trailing slash. *)
+Definition has_authority (url : bytes) : bool :=
+  match url with
+  | a :: b :: c :: _ => (a =? SLASH) && (b =? SLASH) && negb (c =? SLASH)
+  | _ => false
+  end.
+Fixpoint olddir_rev (r : bytes) : bytes :=        (* path.Split(p): everything through the last '/' *)
+  match r with [] => [] | c :: r' => if c =? SLASH then r else olddir_rev r' end.
+Definition olddir (p : bytes) : bytes := rev (olddir_rev (rev p)).
+Definition clean_keep_slash (url : bytes) : bytes :=
+  let c := clean url in
+  if ends_with_slash url && negb (ends_with_slash c) then c ++ [SLASH] else c.
+Definition http_redirect (reqpath url : bytes) : bytes :=
+  if has_authority url then url else
+  let old := match reqpath with [] => [SLASH] | _ => reqpath end in
+  let abs := match url with
+             | c :: _ => if c =? SLASH then url else olddir old ++ url
+             | [] => olddir old
+             end in
+  clean_keep_slash abs.
+
+(* ---- requests and outcomes ---- *)
+(* method codes: 0 GET, 1 HEAD, 2 OPTIONS, 3 PROPFIND, 4 anything else *)
+Definition is_get_head (m : N) : bool := (m =? 0) || (m =? 1).
+
 Inductive outcome :=
-| Status (code : N)                       (* returned without serving a file: 404 / 405 *)
-| Redirect (location_path : bytes)        (* 307 to this (unescaped) path *)
-| Serve (id : N) (encoding : option bytes).
+| Status (code : N)                         (* status returned without content (404 405 501 503) *)
+| Redirect (code : N) (location : bytes)    (* Location header, without the query *)
+| Serve (n : node) (enc : option bytes)     (* 200 with the bytes of n, Content-Encoding enc *)
+| Listing (entries : list node)             (* 200, directory listing naming these children *)
+| Archive (members : list node).            (* 200, archive of these descendants *)
 
-Definition is_hidden (fs : fsys) (hide : list bytes) (n : node) : bool :=
-  existsb (fun h => match fs_open fs h with Some hn => n_id hn =? n_id n | None => false end) hide.
+(* ---- IsHidden: os.SameFile against every hide-list entry that can be opened ---- *)
+Definition hidden_id (fs : fsys) (hide : list bytes) (id : N) : bool :=
+  existsb (fun h => match fs_open fs h with Some hn => n_id hn =? id | None => false end) hide.
+Definition is_hidden (fs : fsys) (hide : list bytes) (n : node) : bool := hidden_id fs hide (n_id n).
 
-(* Accept-Encoding: split on ',', TrimSpace, exact token match *)
-Definition trim_spaces (s : bytes) : bytes :=
-  let is_sp c := (c =? 32) || (c =? 9) || (c =? 10) || (c =? 13) || (c =? 11) || (c =? 12) in
-  let fix dropw (l : bytes) := match l with c :: r => if is_sp c then dropw r else l | [] => [] end in
-  rev (dropw (rev (dropw s))).
+(* Accept-Encoding: strings.Split(",") then TrimSpace then exact comparison *)
+Definition is_space (c : N) : bool :=
+  (c =? 32) || (c =? 9) || (c =? 10) || (c =? 13) || (c =? 11) || (c =? 12).
+Fixpoint drop_spaces (l : bytes) : bytes :=
+  match l with c :: r => if is_space c then drop_spaces r else l | [] => [] end.
+Definition trim_spaces (s : bytes) : bytes := rev (drop_spaces (rev (drop_spaces s))).
 Definition accepts (accept_encoding name : bytes) : bool :=
   existsb (fun t => beq (trim_spaces t) name) (split 44 accept_encoding).
 
+(* the index-page loop: the first page that can be opened wins, whatever it is *)
 Fixpoint first_index (fs : fsys) (req : bytes) (pages : list bytes) : option (bytes * node) :=
   match pages with
   | [] => None
@@ -59,6 +118,7 @@ Fixpoint first_index (fs : fsys) (req : bytes) (pages : list bytes) : option (by
               end
   end.
 
+(* the precompressed-sibling loop over staticEncodingPriority *)
 Fixpoint first_sibling (fs : fsys) (req ae : bytes) (encs : list (bytes * bytes)) : option (node * bytes) :=
   match encs with
   | [] => None
@@ -71,16 +131,21 @@ Fixpoint first_sibling (fs : fsys) (req ae : bytes) (encs : list (bytes * bytes)
       else first_sibling fs req ae r
   end.
 
+(* staticfiles.FileServer.ServeHTTP / serveFile; [prefix] is the site's path prefix ("/" if none),
+   [req] the request path the handler sees *)
 Definition serve_file (fs : fsys) (hide pages : list bytes) (prefix : bytes)
-           (is_get_or_head : bool) (req ae : bytes) : outcome :=
-  if negb is_get_or_head then Status 405 else
+           (meth : N) (req ae : bytes) : outcome :=
+  if negb (is_get_head meth) then Status 405 else
+  if bad_name req then Status 503 else         (* http.Dir: "invalid or unsafe file path" *)
   match fs_open fs req with
   | None => Status 404
   | Some d =>
     let up0 := if beq prefix [SLASH] then req else prefix ++ req in
     let up := match up0 with [] => [SLASH] | _ => up0 end in
-    if n_dir d && negb (last_is_slash up) then Redirect (trim_dslash up ++ [SLASH])
-    else if negb (n_dir d) && last_is_slash up then Redirect (trim_dslash (drop_last up))
+    if n_dir d && negb (ends_with_slash up)
+    then Redirect 307 (http_redirect req (escape_path (trim_dslash up ++ [SLASH])))
+    else if negb (n_dir d) && ends_with_slash up
+    then Redirect 307 (http_redirect req (escape_path (trim_dslash (drop_last up))))
     else
       let '(req1, d1) := if n_dir d then match first_index fs req pages with
                                          | Some (ip, n) => (ip, n)
@@ -89,73 +154,188 @@ Definition serve_file (fs : fsys) (hide pages : list bytes) (prefix : bytes)
                          else (req, d) in
       if n_dir d1 || is_hidden fs hide d1 then Status 404
       else match first_sibling fs req1 ae gen_static_encodings with
-           | Some (n, enc) => Serve (n_id n) (Some enc)
-           | None => Serve (n_id d1) None
+           | Some (n, enc) => Serve n (Some enc)
+           | None => Serve d1 None
            end
   end.
 
-(* ---- cases ---- *)
-Inductive case :=
-(* static file server alone (FileServer.ServeHTTP through a real site without browse):
-   observed status, Location (raw header bytes, empty if none), Content-Encoding, and the
-   identity of the file whose token was found in the body (None = none of the fixture's tokens) *)
-| CStatic (fs : fsys) (hide pages : list bytes) (get_or_head head : bool) (req ae : bytes)
-          (obs_status : N) (obs_location obs_ce : bytes) (obs_file : option N)
-          (outside_leak hidden_leak : bool)
-(* browse in front: only the contract is judged *)
-| CBrowse (obs_status : N) (obs_location : bytes) (outside_leak hidden_leak : bool).
+(* ---- internal: requests whose path matches one of its paths are answered 404 ---- *)
+Definition internal_blocks (paths : list bytes) (req : bytes) : bool :=
+  existsb (fun p => path_matches false req p) paths.
 
+(* ---- browse ---- *)
+Record bconf := { b_scope : bytes; b_types : list bytes }.
+
+Definition dir_prefix (d : bytes) : bytes := if beq d [SLASH] then d else d ++ [SLASH].
+Definition is_desc (d p : bytes) : bool :=
+  has_prefix p (dir_prefix d) && (N.of_nat (length (dir_prefix d)) <? N.of_nat (length p)).
+Definition rel_name (d p : bytes) : bytes := skipn (length (dir_prefix d)) p.
+Definition is_child (d p : bytes) : bool := is_desc d p && negb (existsb (N.eqb SLASH) (rel_name d p)).
+Definition children (fs : fsys) (d : bytes) : list node := filter (fun n => is_child d (n_path n)) fs.
+Definition descendants (fs : fsys) (d : bytes) : list node := filter (fun n => is_desc d (n_path n)) fs.
+
+Definition browse (fs : fsys) (hide pages : list bytes) (confs : list bconf)
+           (meth : N) (req ae archive : bytes) : outcome :=
+  let next := serve_file fs hide pages [SLASH] meth req ae in
+  match find (fun bc => path_matches false req (b_scope bc)) confs with
+  | None => next
+  | Some bc =>
+    match fs_open fs req with
+    | None => next
+    | Some d =>
+      if negb (n_dir d) then next
+      else if (meth =? 2) || (meth =? 3) then Status 501
+      else if negb (is_get_head meth) then next
+      else
+        let u := match req with [] => [SLASH] | _ => req end in
+        if negb (ends_with_slash u)
+        then Redirect 301 (http_redirect req (escape_path (u ++ [SLASH])))
+        else
+          let dirp := jail req in
+          let kids := children fs dirp in
+          if existsb (fun k => existsb (beq (rel_name dirp (n_path k))) pages) kids then next
+          else match archive with
+               | [] => Listing (filter (fun k => negb (is_hidden fs hide k)) kids)
+               | _ => if existsb (beq archive) (b_types bc)
+                      then Archive (descendants fs dirp)   (* fs.Walk: the hide list is not consulted *)
+                      else Status 404
+               end
+    end
+  end.
+
+(* ---- hideCasketfile: strings.HasPrefix(absOrigin, absRoot) -> TrimPrefix ---- *)
+Definition hide_casketfile (abs_root abs_origin : bytes) : option bytes :=
+  match abs_origin with
+  | [] => None
+  | _ => if has_prefix abs_origin abs_root then Some (skipn (length abs_root) abs_origin) else None
+  end.
+
+(* ---- a site: internal in front of browse in front of the static file server ---- *)
+Record site := { s_fs : fsys; s_hide : list bytes; s_pages : list bytes;
+                 s_internal : list bytes; s_browse : list bconf }.
+Record request := mkreq { q_meth : N; q_path : bytes; q_ae : bytes; q_archive : bytes }.
+
+Definition handle (s : site) (r : request) : outcome :=
+  if internal_blocks (s_internal s) (q_path r) then Status 404
+  else browse (s_fs s) (s_hide s) (s_pages s) (s_browse s) (q_meth r) (q_path r) (q_ae r) (q_archive r).
+
+(* ---- the fixture the harness writes to disk (Gen_C02b is regenerated from the same table) ---- *)
+Definition fixture_fs : fsys :=
+  map (fun t => match t with (p, d, i) => {| n_path := p; n_dir := d; n_id := i |} end) gen_c02_fixture.
+(* the hide list a site ends up with: hideCasketfile's entry (from the absolute root and origin
+   paths the instance was started with), then the paths of the `internal` directives *)
+Definition site_hide (abs_root abs_origin : bytes) : list bytes :=
+  match hide_casketfile abs_root abs_origin with Some h => [h] | None => [] end ++ gen_c02_internal.
+(* scope = "" : no browse directive *)
+Definition mksite (abs_root abs_origin scope : bytes) (types : list bytes) : site :=
+  {| s_fs := fixture_fs; s_hide := site_hide abs_root abs_origin; s_pages := gen_default_index_pages;
+     s_internal := gen_c02_internal;
+     s_browse := match scope with [] => [] | _ => [{| b_scope := scope; b_types := types |}] end |}.
+
+(* ---- observations ---- *)
+(* kind: 0 plain response, 1 directory listing, 2 archive.  ids: identities of the fixture files
+   whose token occurs in the fully decoded / un-archived body (1 = a file OUTSIDE the root,
+   2 = unknown token).  names: listed names / archive member paths relative to the directory. *)
+Record obs := mkobs { o_status : N; o_loc : bytes; o_ce : bytes; o_kind : N;
+                      o_ids : list N; o_names : list bytes }.
+
+Inductive case :=
+| CSkip                                   (* net/http rejected the request line; nothing to judge *)
+| CReq (s : site) (r : request) (o : obs)
+(* a site with a path prefix: the server's prefix trimming (url.Parse of the escaped rest) is not
+   modelled; [r] carries the path the handlers saw as computed by the harness, and only the
+   executable property is judged *)
+| CContract (s : site) (r : request) (o : obs).
+
+Definition mem_N (l : list N) (x : N) : bool := existsb (N.eqb x) l.
+Definition mem_b (l : list bytes) (x : bytes) : bool := existsb (beq x) l.
+Definition seteq_N (a b : list N) : bool := forallb (mem_N b) a && forallb (mem_N a) b.
+Definition seteq_b (a b : list bytes) : bool := forallb (mem_b b) a && forallb (mem_b a) b.
+
+Definition agree (s : site) (r : request) (o : obs) : bool :=
+  let body := negb (q_meth r =? 1) in                     (* HEAD answers carry no body *)
+  match handle s r with
+  | Status c => (o_status o =? c) && beq (o_loc o) [] && seteq_N (o_ids o) [] && (o_kind o =? 0)
+  | Redirect c l => (o_status o =? c) && beq (o_loc o) l && seteq_N (o_ids o) []
+  | Serve n enc =>
+      (o_status o =? 200) && beq (o_loc o) [] && (o_kind o =? 0) &&
+      beq (o_ce o) (match enc with Some e => e | None => [] end) &&
+      seteq_N (o_ids o) (if body && negb (n_dir n) then [n_id n] else [])
+  | Listing kids =>
+      let d := jail (q_path r) in
+      (o_status o =? 200) && beq (o_loc o) [] && seteq_N (o_ids o) [] &&
+      (if body then (o_kind o =? 1) && seteq_b (o_names o) (map (fun k => rel_name d (n_path k)) kids)
+       else true)
+  | Archive ms =>
+      let d := jail (q_path r) in
+      (o_status o =? 200) && beq (o_loc o) [] &&
+      (if body then (o_kind o =? 2) &&
+                    seteq_b (o_names o) (map (fun k => rel_name d (n_path k)) ms) &&
+                    seteq_N (o_ids o) (map n_id (filter (fun k => negb (n_dir k)) ms))
+       else seteq_N (o_ids o) [])
+  end.
+
+(* ---- the executable statement of the property, evaluated on the observation alone ---- *)
+(* a redirect stays on the origin: Location starts with exactly one '/' (and no '\', which user
+   agents treat like '/') *)
 Definition same_origin (loc : bytes) : bool :=
   match loc with
-  | [] => true                                   (* no redirect *)
+  | [] => true
   | c :: r => (c =? SLASH) && match r with d :: _ => negb (d =? SLASH) && negb (d =? 92) | [] => true end
   end.
 
-Definition opt_N_eqb (a b : option N) : bool :=
-  match a, b with Some x, Some y => x =? y | None, None => true | _, _ => false end.
-
-(* unescape %XX in a Location path (the harness passes the raw header) *)
-Definition hexv (c : N) : option N :=
-  if (48 <=? c) && (c <=? 57) then Some (c - 48)
-  else if (65 <=? c) && (c <=? 70) then Some (c - 55)
-  else if (97 <=? c) && (c <=? 102) then Some (c - 87) else None.
-Fixpoint unescape (s : bytes) : bytes :=
-  match s with
-  | [] => []
-  | c :: r =>
-      if c =? 37 then
-        match r with
-        | a :: b :: r' => match hexv a, hexv b with
-                          | Some x, Some y => (16 * x + y) :: unescape r'
-                          | _, _ => c :: unescape r
-                          end
-        | _ => c :: unescape r
-        end
-      else c :: unescape r
+(* starts with exactly one '/' *)
+Definition one_slash (p : bytes) : bool :=
+  match p with
+  | c :: r => (c =? SLASH) && match r with d :: _ => negb (d =? SLASH) | [] => true end
+  | [] => false
   end.
-Fixpoint strip_query (s : bytes) : bytes :=
-  match s with [] => [] | c :: r => if c =? 63 then [] else c :: strip_query r end.
+
+(* the names serve_file may have opened for the body: the request path or one of its index pages,
+   or such a name extended by the extension of an accepted encoding *)
+Definition served_from (pages : list bytes) (req ae : bytes) (enc : option bytes) (p : bytes) : Prop :=
+  exists base, (base = req \/ exists pg, In pg pages /\ base = path_join2 req pg) /\
+    match enc with
+    | None => p = jail base
+    | Some e => exists ext, In (e, ext) gen_static_encodings /\ accepts ae e = true /\ p = jail (base ++ ext)
+    end.
+
+(* hypothesis of the partial never-hidden theorem: no hidden file is reachable under a name
+   q ++ ext, ext the extension of a static encoding *)
+Definition no_hidden_sibling (fs : fsys) (hide : list bytes) : Prop :=
+  forall q e ext m, In (e, ext) gen_static_encodings -> fs_open fs (q ++ ext) = Some m ->
+                    is_hidden fs hide m = false.
+
+(* the files a plain answer to [req] may consist of: the file the cleaned path names, an index
+   page of that directory, or a precompressed sibling of one of these that the client accepts *)
+Definition child_path (d name : bytes) : bytes := dir_prefix d ++ name.
+Definition allowed_static (pages : list bytes) (req ae p : bytes) : bool :=
+  let c := jail req in
+  let bases := c :: map (child_path c) pages in
+  mem_b bases p ||
+  existsb (fun e => accepts ae (fst e) && mem_b (map (fun b => b ++ snd e) bases) p) gen_static_encodings.
+
+Definition spec_ok (s : site) (r : request) (o : obs) : bool :=
+  let fs := s_fs s in
+  let c := jail (q_path r) in
+  (* id is the identity of a regular, non-hidden file inside the root at a permitted place *)
+  let ok_file (where_ : bytes -> bool) (id : N) :=
+    existsb (fun n => (n_id n =? id) && negb (n_dir n) && negb (hidden_id fs (s_hide s) id) &&
+                      where_ (n_path n)) fs in
+  let visible (p : bytes) :=
+    match fs_at fs p with Some n => negb (hidden_id fs (s_hide s) (n_id n)) | None => false end in
+  same_origin (o_loc o) &&
+  match o_kind o with
+  | 0 => forallb (ok_file (allowed_static (s_pages s) (q_path r) (q_ae r))) (o_ids o) &&
+         (* a 200 answer to GET is exactly one file *)
+         (if (o_status o =? 200) && (q_meth r =? 0) then N.of_nat (length (o_ids o)) =? 1 else true)
+  | 1 => seteq_N (o_ids o) [] && forallb (fun nm => visible (child_path c nm)) (o_names o)
+  | _ => forallb (ok_file (is_desc c)) (o_ids o) && forallb (fun nm => visible (child_path c nm)) (o_names o)
+  end.
 
 Definition judge (c : case) : N :=
   match c with
-  | CStatic fs hide pages goh head req ae ost oloc oce ofile outside hidden =>
-      let m := serve_file fs hide pages [SLASH] goh req ae in
-      let agree :=
-        match m with
-        | Status code => (ost =? code) && beq oloc [] && opt_N_eqb ofile None
-        | Redirect p => (ost =? 307) && beq (unescape (strip_query oloc)) p
-        | Serve id enc => (ost =? 200) && beq oloc [] &&
-                          (head || opt_N_eqb ofile (Some id)) &&
-                          beq oce (match enc with Some e => e | None => [] end)
-        end in
-      let spec := negb outside && negb hidden && same_origin oloc &&
-                  (* a body is only ever a regular, non-hidden file inside the jail *)
-                  match ofile with
-                  | Some id => existsb (fun n => (n_id n =? id) && negb (n_dir n) &&
-                                                 negb (is_hidden fs hide n)) fs
-                  | None => true
-                  end in
-      verdict agree spec
-  | CBrowse ost oloc outside hidden =>
-      verdict true (negb outside && negb hidden && same_origin oloc)
+  | CSkip => 0
+  | CReq s r o => verdict (agree s r o) (spec_ok s r o)
+  | CContract s r o => verdict true (spec_ok s r o)
   end.
